@@ -41,6 +41,7 @@ class Interp:
         class SecondProcessor(d.CoroutineProcessor):
             priority = 1
         self.cp2 = SecondProcessor()    # coroutines can be handed over
+        self.cp3 = d.CoroutineProcessor()   # an unrelated, empty processor
         self.owner = {}
         self.norelease = set()
         self.min_release = {}
@@ -188,6 +189,17 @@ class Interp:
         self.owner[c] = 1 if self.owner.get(c) == 2 else 2
         self.op_start(['start', c])
         self.probes['handed_to_other_processor'] += 1
+
+    def op_aux(self, op):
+        """An unrelated CoroutineProcessor (it owns nothing) is processed,
+        possibly from inside a coroutine body of another processor."""
+        r = self.call(lambda: self.cp3.process(dec(op[1])),
+                      'process of an unrelated processor')
+        if r[0] == 'exc':
+            self.fail(('C08', 'C09'), 'process_raised',
+                      f'process() of an empty processor raised {r[1]}')
+        if self.costack:
+            self.probes['other_processor_run_from_a_body'] += 1
 
     # ---- operations
     def exec_op(self, op):
@@ -432,8 +444,27 @@ class Interp:
 
     def op_bad(self, op):
         kind, what = op[1], op[2]
-        obj = {'int': 3, 'none': None, 'func': (lambda: None),
-               'list': [1]}[what]
+        if what == 'proxy':
+            # not a generator, but equal to (and hashing like) a registered one
+            live = [c for c, st in sorted(self.status.items())
+                    if st in 'AP' and self.owner.get(c) != 2]
+            if not live:
+                return 'skip'
+            import weakref
+            wr = weakref.ref(self.gens[live[0]])    # (no extra reference:
+            hg = hash(self.gens[live[0]])           # release is observed)
+
+            class Proxy:
+                def __hash__(self):
+                    return hg
+
+                def __eq__(self, other):
+                    return other is wr() or other is self
+            obj = Proxy()
+            self.probes['generator_lookalike_rejected'] += 1
+        else:
+            obj = {'int': 3, 'none': None, 'func': (lambda: None),
+                   'list': [1]}[what]
         fn = {'start': self.cp.start, 'kill': self.cp.kill,
               'state': self.cp.state}[kind]
         r = self.call(lambda: fn(obj), f'{kind}({what})')
@@ -648,6 +679,29 @@ def generate(prop, run_seed, tier='quick', tolerate=frozenset()):
                 y != 'N' and isinstance(y, (int, float))
                 and not isinstance(y, bool) and y > 0) else y
                 for y in co['yields']]
+    if prop == 'C09' and crng.random() < .02:
+        # churn: many kill-then-restart cycles of waiting coroutines (each
+        # leaves something behind in the processor's wait structure) next
+        # to untouched waiters with scattered deadlines
+        nch, nw = crng.randint(4, 6), crng.randint(4, 7)
+        coros = [{'yields': [crng.randint(8, 90) for _ in range(30)],
+                  'ret': None} for _ in range(nch)]
+        for _ in range(nw):
+            coros.append({'yields': [crng.randint(8, 90)] + ['N'] * 3,
+                          'ret': None})
+        order = list(range(nch + nw))
+        crng.shuffle(order)             # scattered positions in the heap
+        ops = [['start', c] for c in order] + [['frame', 1]]
+        for _ in range(crng.randint(33, 60)):
+            c = crng.randrange(nch)
+            ops += [['kill', c], ['start', c], ['frame', 0]]
+        for _ in range(26):
+            ops.append(['frame', crng.choice([3, 4, 5])])
+            if crng.random() < .3:
+                ops.append(['state', crng.randrange(nch + nw)])
+        return {'format': 1, 'engine': 'coro',
+                'config': {'in_world': False, 'coros': coros, 'churn': True},
+                'ops': ops, 'scripts': {}}
     cfg = {'in_world': crng.random() < .33, 'coros': coros}
     life = prop == 'C09'
     w = dict(frame=6, start=2, kill=.4, pkill=.1, state=.3, pstate=.1,
@@ -685,7 +739,8 @@ def generate(prop, run_seed, tier='quick', tolerate=frozenset()):
             ops.append(['handoff', c])
         elif k == 'bad':
             ops.append(['bad', rng.choice(['start', 'kill', 'state']),
-                        rng.choice(['int', 'none', 'func', 'list'])])
+                        rng.choice(['int', 'none', 'func', 'list', 'proxy',
+                                    'proxy'])])
         elif k == 'dstart':
             ops.append(['dstart', c, rng.random() < .5])
         else:
@@ -699,7 +754,10 @@ def generate(prop, run_seed, tier='quick', tolerate=frozenset()):
         for _ in range(rng.randint(1, 2)):
             tgt = c if rng.random() < .25 else rng.randrange(nc)
             kind = rng.choices(['start', 'kill', 'pkill', 'state', 'pstate',
-                                'dstart'], [3, 3, 1, 2, 1, 1])[0]
+                                'dstart', 'aux'], [3, 3, 1, 2, 1, 1, 1.5])[0]
+            if kind == 'aux':
+                script.append(['aux', rng.choice([0, 0.25, 1, 5])])
+                continue
             if not life and kind in ('kill', 'pkill'):
                 kind = 'start'
             script.append(['dstart', tgt, rng.random() < .5]
@@ -770,13 +828,14 @@ PROBES = {
             'two_deadlines_one_frame', 'equal_deadlines',
             'zero_dt_frame_with_waiters', 'wait_started_mid_others',
             'jump_overshoots>=2', 'start_inside_body', 'fraction_wait',
-            'bool_wait', 'order_checked'],
+            'bool_wait', 'order_checked', 'other_processor_run_from_a_body'],
     'C09': ['kill_then_start_same_instant', 'kill_waiting_then_start',
             'self_kill', 'kill_after_victim_ran_this_frame',
             'kill_before_victim_turn', 'start_running_rejected',
             'kill_terminated_rejected', 'restart_finished',
             'release_checked.finished', 'release_checked.killed',
             'decorator_path', 'non_generator_rejected', 'value_checked',
+            'generator_lookalike_rejected',
             'handed_to_other_processor',
             'state_read.T', 'state_read.A', 'state_read.P'],
 }
